@@ -36,7 +36,7 @@ ENTRY_SRC = {
     Foo things.
     """
 
-    def __init__(self, alpha: int = 5, beta: str = "x", kappa: float = 0.5):
+    def __init__(self, alpha: int = 7, beta: str = "y", kappa: float = 0.5):
         """
         Make a Foo
 
@@ -79,6 +79,9 @@ ENTRY_SRC = {
 ''',
 }
 PARAMS = {"Fob": ["alpha", "beta", "kappa"], "Foo": ["alpha", "beta"], "Baz": ["gamma", "delta"], "bar": ["eps", "zeta"], "qux": ["eta", "theta"]}
+# the defaults each object's own signature gives (twins share docstrings, not these)
+DEFAULTS = {"Foo": {"alpha": 5, "beta": "x"}, "Fob": {"alpha": 7, "beta": "y", "kappa": 0.5}, "Baz": {"gamma": 3, "delta": "d"},
+            "bar": {"eps": 0.5, "zeta": True}, "qux": {"eta": 1, "theta": "t"}}
 IMPORT_LINES = ["import os", "from collections import OrderedDict"]
 PREPEND = "PREPENDED_MARK = 1\n"
 
@@ -169,18 +172,44 @@ def run_one(rec):
                         items.append(st.name)
                         if st.name in want:
                             src_name = c["mapping"][want.index(st.name)]
-                            names = []
+                            names, vals = [], {}
+
+                            def lit(node):
+                                try:
+                                    return ast.literal_eval(node)
+                                except Exception:
+                                    return "<unevaluable>"
+
                             if isinstance(st, ast.ClassDef):
-                                names = [x.target.id for x in st.body if isinstance(x, ast.AnnAssign) and isinstance(x.target, ast.Name)]
+                                for x in st.body:
+                                    if isinstance(x, ast.AnnAssign) and isinstance(x.target, ast.Name):
+                                        names.append(x.target.id)
+                                        if x.value is not None:
+                                            vals[x.target.id] = lit(x.value)
                                 kind_ok = kind_ok and c["type"] == "class"
                             else:
                                 if c["type"] == "argparse":
                                     for x in st.body:
                                         if isinstance(x, ast.Expr) and isinstance(x.value, ast.Call) and getattr(x.value.func, "attr", "") == "add_argument":
-                                            names.append(ast.literal_eval(x.value.args[0])[2:])
+                                            n_ = ast.literal_eval(x.value.args[0])[2:]
+                                            names.append(n_)
+                                            for kw in x.value.keywords:
+                                                if kw.arg == "default":
+                                                    vals[n_] = lit(kw.value)
                                 else:
-                                    names = [a.arg for a in st.args.args + st.args.kwonlyargs if a.arg not in ("self", "cls")]
+                                    pos = [a for a in st.args.args if a.arg not in ("self", "cls")]
+                                    names = [a.arg for a in pos + st.args.kwonlyargs]
+                                    for a, d in zip(pos[len(pos) - len(st.args.defaults):], st.args.defaults):
+                                        vals[a.arg] = lit(d)
+                                    for a, d in zip(st.args.kwonlyargs, st.args.kw_defaults):
+                                        if d is not None:
+                                            vals[a.arg] = lit(d)
                                 kind_ok = kind_ok and c["type"] in ("function", "argparse")
+                            # the values must be the object's own (type-exact)
+                            for n_, want_v in DEFAULTS[src_name].items():
+                                if n_ in vals and (vals[n_] != want_v or type(vals[n_]) is not type(want_v)):
+                                    iface_ok = False
+                                    res.setdefault("iface_detail", []).append([st.name, n_, repr(vals[n_]), repr(want_v)])
                             if [n for n in names if n != "return_type"] != PARAMS[src_name]:
                                 iface_ok = False
                                 res.setdefault("iface_detail", []).append([st.name, names])
